@@ -270,3 +270,14 @@ Theorem C09_balance_iff : forall G H : mgraph,
   balancedb G H = true <-> (forall e, el_count e G = el_count e H) /\ total_charge G = total_charge H.
 Proof. exact balance_iff. Qed.
 Print Assumptions C09_balance_iff.
+
+(** dicts_balance_check (round 3): the records are split into (balanced, unbalanced) without loss or duplication, and a
+    record is in the balanced list exactly when its element counts (with H) and total charge agree *)
+Theorem C09_balance_partition : forall (X : Type) (rs : list (X * (mgraph * mgraph))),
+  Permutation (fst (balance_partition rs) ++ snd (balance_partition rs)) (map fst rs) /\
+  (forall x, In x (fst (balance_partition rs)) <->
+     exists G H, In (x, (G, H)) rs /\ (forall e, el_count e G = el_count e H) /\ total_charge G = total_charge H) /\
+  (forall x, In x (snd (balance_partition rs)) <->
+     exists G H, In (x, (G, H)) rs /\ ~ ((forall e, el_count e G = el_count e H) /\ total_charge G = total_charge H)).
+Proof. exact @balance_partition_spec. Qed.
+Print Assumptions C09_balance_partition.
